@@ -185,7 +185,8 @@ def fhex(x):
 
 
 STR_POOLS = {
-    "int": ["1", "2", "30", "-7", "0", "+5", " 12 ", "1_0", "007", "05", "9007199254740993", "٣"],
+    "int": ["1", "2", "30", "-7", "0", "+5", " 12 ", "1_0", "007", "05", "9007199254740993", "٣", "18446744073709551615", "9223372036854775808",
+            "1_000", "340282366920938463463374607431768211456", "-9223372036854775809"],
     "float": ["1.5", "2.0", "1e3", "-0.25", ".5", "1.", "inf", "nan", "NaN", "1e400", "0.1", "00.5", "1.0", "3.0", "01.5", "02.5", "01.02",
               "03.04", "0.5e1", "0.25", "012.5"],
     "bool": ["True", "false", "TRUE", "yes", "No", "y", "N", "true", "FALSE", "Y", "n", "no", "YES"],
